@@ -125,20 +125,59 @@ theorem project_over_summarize_counter :
 
 /-! ### (G) the side conditions the code tests today -/
 
-/-- the test `Where.Transform` applies before moving a conjunct below a summarize, as regenerated
-from the source (`cols1 := …; set.HasSubset(cols1, e.Columns())`) -/
-def codeWhereTest (srcCols by_ : List Col) (e : Expr) : Prop :=
-  match Gsu.Gen.QryCond.whereSummarizeTests with
+/-- the test `Where.Transform` applies before moving a conjunct below a summarize, for each shape
+the extractor recognises (`cols1 := …; set.HasSubset(cols1, e.Columns())`) -/
+def pushTest (t : Gsu.Gen.QryCond.ColSet) (srcCols by_ sumCols : List Col) (e : Expr) : Prop :=
+  match t with
   | .sourceCols => Sub e.cols srcCols
   | .byCols => Sub e.cols by_
+  | .sourceMinusSummaryCols => Sub e.cols (diffCols srcCols sumCols)
 
-/-- the rewrite `Where.Transform` performs is sound under the condition the code tests.
-(Does not build while the code tests the source columns — finding 13.) -/
+/-- the test as the code has it today (regenerated) -/
+def codeWhereTest (srcCols by_ sumCols : List Col) (e : Expr) : Prop :=
+  pushTest Gsu.Gen.QryCond.whereSummarizeTests srcCols by_ sumCols e
+
+/-- every shape except "source columns" implies `⊆ by` for a restriction that is valid on the
+result of a grouping (not whole-row) summarize, whose columns are `by ++ summary columns` -/
+theorem pushTest_sub_by (t : Gsu.Gen.QryCond.ColSet) (ht : t ≠ .sourceCols)
+    (srcCols by_ sumCols : List Col) (e : Expr) (hvalid : Sub e.cols (by_ ++ sumCols))
+    (h : pushTest t srcCols by_ sumCols e) : Sub e.cols by_ := by
+  cases t with
+  | sourceCols => exact absurd rfl ht
+  | byCols => exact h
+  | sourceMinusSummaryCols =>
+    intro c hc
+    have h1 := (mem_diffCols srcCols sumCols c).1 (h c hc)
+    rcases List.mem_append.1 (hvalid c hc) with hb | hs
+    · exact hb
+    · exact absurd hs h1.2
+
+/-- the rewrite `Where.Transform` performs on a grouping (not whole-row) summarize is sound under
+the condition the code tests: that condition implies `cols ⊆ by`. (Does not build while the code
+tests the source columns — finding 13.) For a whole-row summarize the code's present condition
+(source columns that are not summary columns) is NOT sufficient:
+`where_over_summarize_whole_counter` — open known finding, pinned by the repository's own
+`TestTransform`. -/
 theorem gen_where_over_summarize (db : Db) (q : Query) (by_ : List Col)
-    (aggs : List (Col × Agg × Col)) (e : Expr) (h : codeWhereTest (colsQ db q) by_ e) :
+    (aggs : List (Col × Agg × Col)) (e : Expr)
+    (hvalid : Sub e.cols (colsQ db (.summarize q false by_ aggs)))
+    (h : codeWhereTest (colsQ db q) by_ (aggs.map (·.1)) e) :
     SetEq (evalQ db (.where_ (.summarize q false by_ aggs) e))
       (evalQ db (.summarize (.where_ q e) false by_ aggs)) :=
-  Gsu.Qry.where_over_summarize db q by_ aggs e h
+  Gsu.Qry.where_over_summarize db q by_ aggs e
+    (pushTest_sub_by Gsu.Gen.QryCond.whereSummarizeTests (by decide) _ _ _ e hvalid h)
+
+/-- the whole-row remainder, stated on the code's present condition: the counter-model's
+predicate passes the regenerated test although the rewrite changes the result -/
+theorem gen_where_over_wholerow_summarize_open :
+    pushTest .sourceMinusSummaryCols (colsQ cdb (.table 0)) [] [3]
+        (.cmp .gt (.col 2) (.const (.int 5))) ∧
+    evalQ cdb (.where_ (.summarize (.table 0) true [] [(3, .max, 1)]) (.cmp .gt (.col 2) (.const (.int 5)))) ≠
+      evalQ cdb (.summarize (.where_ (.table 0) (.cmp .gt (.col 2) (.const (.int 5)))) true [] [(3, .max, 1)]) := by
+  refine ⟨?_, by decide⟩
+  intro c hc
+  simp only [Expr.cols, List.append_nil, List.mem_singleton] at hc
+  subst hc; decide
 
 /-- the guard of `Project.Transform`'s "no summaries left" rewrite, as regenerated -/
 def codeProjectGuard (by_ cs : List Col) : Prop :=
